@@ -41,7 +41,32 @@ def _mk(rng, nq, nmark, depth):
     return instrs
 
 
+def _legal_contents_cases():
+    """legal circuit contents next to the markers: instructions that carry classical bits (mid-circuit and final measurements into named
+    registers), operations without qubit operands (global phase), resets, barriers, user Moves — deterministic, oracle on every case"""
+    M = lambda q, c: {"name": "measure", "qubits": [q], "clbits": [c]}
+    W = lambda q: {"name": "cut_wire", "qubits": [q]}
+    G = lambda n, *qs, **kw: dict({"name": n, "qubits": list(qs)}, **kw)
+    GP = lambda t: {"name": "global_phase", "qubits": [], "params": [t]}
+    progs = [
+        (2, [["c", 2]], [G("h", 0), G("cx", 0, 1), M(0, 0), W(1), G("ry", 1, params=[0.7]), M(1, 1)]),
+        (2, [["c", 1]], [G("h", 0), W(0), G("cx", 0, 1), M(1, 0), W(0), G("h", 0)]),
+        (3, [["a", 1], ["b", 2]], [G("ry", 0, params=[0.4]), G("cx", 0, 1), M(1, 2), W(1), G("cx", 1, 2), W(2), M(2, 0), G("h", 0)]),
+        (2, [], [GP(0.3), G("h", 0), W(0), G("cx", 0, 1), GP(-1.1)]),
+        (3, [], [G("h", 1), GP(0.25), W(1), G("cx", 1, 2), W(1), GP(0.5), G("cx", 0, 1), W(0)]),
+        (2, [["m", 2]], [GP(0.7), G("h", 0), M(0, 1), W(0), G("cx", 0, 1), G("reset", 1), W(1), G("ry", 1, params=[1.2]), M(1, 0)]),
+        (3, [["m", 1]], [G("h", 0), G("barrier", 0, 1, 2), W(2), G("cx", 0, 2), M(2, 0), W(2), G("move", 2, 1), G("h", 1)]),
+    ]
+    for nq, cregs, instrs in progs:
+        for wrap in (False, True):
+            for qregs in ([nq], [1] * nq):
+                obs = [{"l": "ZXY"[:nq] if nq <= 3 else "Z" * nq, "p": 0}, {"l": "XZZ"[:nq], "p": 0}, {"l": "ZZZ"[:nq], "p": 0}]
+                yield ("transform", {"nq": nq, "qregs": qregs, "instrs": instrs, "wrap": wrap, "cregs": cregs, "obs": obs, "generic": False,
+                                     "always_oracle": True})
+
+
 def cases(rng, tier):
+    yield from _legal_contents_cases()
     N = 160 if tier == "quick" else 2500
     for _ in range(N):
         nq = rng.randint(1, 4)
@@ -174,7 +199,9 @@ def oracle(kind, payload):
         # the transformed problem can be handed on as it is: automatic partitioning of the cut circuit with the expanded observables
         # (only when every qubit of the input is used and there is nothing classical, so that no refusal is legitimate)
         used = {qc.find_bit(q).index for i in qc.data for q in i.qubits}
-        if nmark and len(used) == qc.num_qubits and qc.num_clbits == 0 and all(o.get("p", 0) == 0 for o in payload["obs"]):
+        # (an operation without qubit operands belongs to no partition: what partitioning does with it is not C03's business)
+        if (nmark and len(used) == qc.num_qubits and qc.num_clbits == 0 and all(o.get("p", 0) == 0 for o in payload["obs"])
+                and all(len(i.qubits) > 0 for i in qc.data)):
             from qiskit_addon_cutting import partition_problem
             try:
                 pp = partition_problem(out, observables=exp_obs)
